@@ -469,6 +469,13 @@ def _r3(model, res, c, key):
     if isinstance(sent_def, ast.Name) or isinstance(sent_def, ast.Attribute):
         r = model.resolve_attr_chain(m, sent_def)
         fresh = bool(r and r[0] == 'const' and isinstance(r[3], (ast.Lambda, ast.Call)))
+    if isinstance(sent_def, ast.Name):
+        # a function or class defined for the purpose (in the method itself or in the module) is as private as a lambda
+        asg = sa.assignments_to(f, sent_def.id)
+        if len(asg) == 1 and isinstance(asg[0][0], (ast.FunctionDef, ast.ClassDef)):
+            fresh = True
+        elif not asg and (sent_def.id in m.functions or sent_def.id in m.classes) and m.assign_counts.get(sent_def.id, 0) == 0:
+            fresh = True
     res.ob('R3', site, 'sentinel %s is a private object' % src(sent_def), fresh)
     if not fresh:
         res.violation('R3', '%s:%s:sentinel-not-private' % key, m.where(g),
